@@ -9,6 +9,8 @@ CONSTANTS
   Colls = {1, 12}
   Chans = {"ch", "ch1"}
   MsgIds = {"m"}
+  Reserved = {}
+  PosKeyPositive = FALSE
   ZeroColl = TRUE
   Backend = "mysql"
   DelNoRoot = FALSE
